@@ -114,6 +114,10 @@ class Gen:
             k = rng.randint(1, min(3, len(pool)))
             pool = pool[:-k] + ["1", "2", "3", "0"][:k]
         if rng.random() < 0.08:
+            # user items whose names merely start like the ids the library generates for helper nodes
+            k = rng.randint(1, min(2, len(pool)))
+            pool = pool[:-k] + ["VARIANT_A", "VAR_b"][:k]
+        if rng.random() < 0.08:
             self.subvars = set(rng.sample(pool, rng.randint(1, min(2, len(pool)))))
         for c in pool:
             if rng.random() < self.p["int_leaf_prob"]:
@@ -700,8 +704,11 @@ class Gen:
             if self.num_weights and rng.random() < 0.5:
                 w = [rng.choice(["np", "fl"]), w]   # the caller hands numpy integers / integral floats
             d.append([i, w])
-        if rng.random() < 0.08:
-            d.append(["zz", 1])
+        if rng.random() < 0.12:
+            # an id the model does not have: either far from every id, or an existing id with something appended
+            unk = "zz" if rng.random() < 0.5 or not ids else rng.choice(ids) + rng.choice(["0", "1", "x", "_b"])
+            if unk not in ids and unk not in [x[0] for x in d]:
+                d.append([unk, rng.choice([1, 1, 2, 7])])
         return d
 
     def solver_spec(self, h, allow_builtin=True):
@@ -721,6 +728,9 @@ class Gen:
         spec = {"mode": rng.choice(modes)}
         if F["solver-raise"] and rng.random() < 0.12:
             spec = {"mode": "raise"}
+            exc = rng.choice(["msg", "msg", "bare", "assert", "stop", "key"])
+            if exc != "msg":
+                spec["exc"] = exc       # argument-less / non-RuntimeError exceptions are exceptions too
             self.fault("solver-raise")
             return spec
         if F["solver-none"] and rng.random() < 0.2:
